@@ -173,6 +173,13 @@ func runSpecCheck(c *Ctx, rtl bool) {
 	add("LOOK3", look3Family(), "", profP0, 5, false)
 	add("ALTREP", altRepFamily(), "", profP0, 5, false)
 	add("BUMP (fragment)", bumpFamilyC01(), "", profP0, 5, false)
+	var setOvl []Pat
+	for _, p := range setOvlFamily() {
+		if inC01Fragment(p.AST) {
+			setOvl = append(setOvl, p)
+		}
+	}
+	add("SETOVL (fragment)", setOvl, "", profP0, 5, false)
 	add("LOOPALT", loopAltFamily(), "", profP0, 6, false)
 	add("ALTB", altBranchFamily(false), "", profP0, 4, false)
 	jobs = append(jobs, specJob{fam: "GROW (long inputs, fresh Regexp per input)", pats: growFamily(), opts: base, prof: profP0, maxL: 26, long: growInputs()})
